@@ -17,6 +17,10 @@ CHECKS = {
  'C17': ('exploration', 'runtime monitor: reference-model oracle (dynamic-programming LIKE matcher) over exhaustive small pattern/text pairs and random Unicode pairs, observed through select/where like() on the Python and JS engines',
          'All pattern/text pairs over the 14-symbol alphabet up to the stated lengths run through the real engines and are compared with an independent matcher; held on the pairs observed.',
          'Trusted: rv/model/refcsv.py like(); single-line texts only.', 'DESIGN.md#c17'),
+
+ 'C10': ('exploration', 'runtime monitor: round-trip oracle on the real writer/reader pair with representability decided by an independent reference dialect; exhaustive small tables x dialects, random tables, all-256-byte latin-1 table, file-to-file leg, JS leg',
+         'Every small table over the special-character alphabet is written by the real CSVWriter and read back by the real CSVRecordIterator in every dialect; lossy-output warnings are asserted on every non-representable write; held on the tables observed.',
+         'Trusted: rv/model/refcsv.py writer/reader pair as the definition of representable.', 'DESIGN.md#c10'),
 }
 
 NOT_YET = 'check not registered yet (machinery under construction; see DESIGN.md section 3a build order)'
